@@ -1401,6 +1401,9 @@ impl Handler {
             // the request that was used to re-establish the session handshake.
             self.replay_active_requests(&node_address, message_nonce)
                 .await;
+            // Requests queued behind the challenge or handshake that led to this session would
+            // otherwise never be sent nor failed.
+            self.send_pending_requests(&node_address).await;
         } else {
             self.sessions.insert(node_address.clone(), session);
             METRICS
